@@ -11,8 +11,9 @@
 EXTENDS Integers, Sequences, FiniteSets, TLC, Json
 
 CONSTANTS Kind, MaxHist
-VARIABLES par, cache, outcome, hist
-vars == <<par, cache, outcome, hist>>
+VARIABLES par, cache, outcome, hist,
+          touched    \* ghost: has anything been read since the last successful change (so that "read, then change" histories are explored)
+vars == <<par, cache, outcome, hist, touched>>
 
 Params == CASE Kind = "uniform"    -> {"energy_density", "laser_length", "laser_radius", "polarization"}
             [] Kind = "cbg"        -> {"pulse_energy", "pulse_length", "stddev_x", "stddev_y", "laser_length", "laser_radius", "polarization"}
@@ -36,7 +37,7 @@ Proj(c, pr) == [p \in Dep(c) |-> pr[p]]
 
 Init == /\ par \in [Params -> {1}] \cup [Params -> {2}] \cup (IF IsSpectrum THEN {} ELSE {[p \in Params |-> IF HasDefaultId(p) THEN 3 ELSE 1]})
         /\ cache = [c \in Caches |-> <<Proj(c, par)>>]
-        /\ outcome = "ok"
+        /\ outcome = "ok" /\ touched = FALSE
         /\ hist = <<[op |-> "init", par |-> par]>>
 Log(e) == hist' = Append(hist, e)
 
@@ -49,14 +50,14 @@ Recomputes(p) == IF IsSpectrum THEN {"binned"}
 Set(p, v) ==
     /\ par' = [par EXCEPT ![p] = v]
     /\ cache' = [c \in Caches |-> IF c \in Recomputes(p) THEN <<Proj(c, par')>> ELSE cache[c]]
-    /\ outcome' = "ok"
+    /\ outcome' = "ok" /\ touched' = FALSE
     /\ Log([op |-> "set", p |-> p, v |-> v])
 SetInvalid(p, v) ==
     /\ outcome' = "ValueError"
-    /\ UNCHANGED <<par, cache>>
+    /\ UNCHANGED <<par, cache, touched>>
     /\ Log([op |-> "set", p |-> p, v |-> v])
 \* reading any observable leaves everything as it is (observations are pure)
-Read == /\ UNCHANGED <<par, cache>> /\ outcome' = "ok" /\ Log([op |-> "read"])
+Read == /\ UNCHANGED <<par, cache>> /\ outcome' = "ok" /\ touched' = TRUE /\ Log([op |-> "read"])
 
 NextStep == \/ \E p \in Params : \E v \in Values(p) : Set(p, v)
             \/ \E p \in Params : \E v \in Invalid(p) : SetInvalid(p, v)
@@ -87,6 +88,6 @@ ExpSegments(pr) == IF IsSpectrum THEN <<>> ELSE
                    LET L == Lengths[pr["laser_length"]]  r == Radii[pr["laser_radius"]] IN
                    [nmax |-> NSeg(L, r), length |-> <<L, D>>, radius |-> <<r, D>>]
 
-View == <<par, cache, outcome>>
+View == <<par, cache, outcome, touched>>
 Emit == PrintT(ToJson([h |-> hist', par |-> par', outcome |-> outcome', segments |-> ExpSegments(par')]))
 =============================================================================
